@@ -3,7 +3,7 @@
 # site-packages + crosshair-tool, z3-solver, cvc5 from the offline wheelhouse).
 set -e
 cd "$(dirname "$0")"
-V=/verif/.venv
+V="$(pwd)/.venv"
 if [ -x $V/bin/python ] && $V/bin/python -c "import z3, crosshair, numpy" 2>/dev/null; then
   exit 0
 fi
